@@ -55,7 +55,8 @@ func VerifC08JSONLogs() {
 	tidText := hex.EncodeToString(tid[:])
 	sid := [8]byte{1, 2, 3, 4, 5, 6, 7, 8}
 
-	text := `{"resourceLogs":[{"resource":{"attributes":[{"key":"b","value":{"bytesValue":"` + b64 + `"}},{"key":"i","value":{"intValue":` + ivText + `}}]},` +
+	text := `{"resourceLogs":[{"resource":{"attributes":[{"key":"b","value":{"bytesValue":"` + b64 + `"}},{"key":"i","value":{"intValue":` + ivText + `}},` +
+		`{"key":"a","value":{"arrayValue":{"values":[{"stringValue":"x"},{},{"boolValue":true},{"kvlistValue":{"values":[{"key":"k","value":{"doubleValue":0.5}},{"key":"e","value":{}}]}}]}}}]},` +
 		`"scopeLogs":[{"scope":{"name":"s"},"logRecords":[{"timeUnixNano":` + tsText + `,"severityNumber":` + sevText + `,"body":{"stringValue":"x"},` +
 		`"traceId":"` + tidText + `","spanId":"` + hex.EncodeToString(sid[:]) + `","flags":1}],"schemaUrl":"u"}]}]}`
 
@@ -68,6 +69,13 @@ func VerifC08JSONLogs() {
 	rl := want.ResourceLogs().AppendEmpty()
 	rl.Resource().Attributes().PutEmptyBytes("b").FromRaw(raw)
 	rl.Resource().Attributes().PutInt("i", ivVals[ii])
+	arr := rl.Resource().Attributes().PutEmptySlice("a")
+	arr.AppendEmpty().SetStr("x")
+	arr.AppendEmpty() // an element without a value after one with a value
+	arr.AppendEmpty().SetBool(true)
+	kv := arr.AppendEmpty().SetEmptyMap()
+	kv.PutDouble("k", 0.5)
+	kv.PutEmpty("e")
 	sl := rl.ScopeLogs().AppendEmpty()
 	sl.Scope().SetName("s")
 	sl.SetSchemaUrl("u")
